@@ -448,8 +448,13 @@ func (u *upstream) doSlotsRefresh() error {
 	}
 	u.MakeRequestToHost(addr, req)
 
-	// wait done
-	req.Wait()
+	// wait done, but never longer than the upstream lives: the chosen host
+	// may not answer at all.
+	select {
+	case <-req.done:
+	case <-u.quit:
+		return errors.New(upstreamExited)
+	}
 	resp := req.Response()
 	if resp.Type == Error {
 		return errors.New(string(resp.Text))
